@@ -104,7 +104,9 @@ def one_case(rep, cs, seed, i):
         return
     sem = pick_semiring(rng, monotone)
     fold, opt = rng.choice(evalc.FLAGS)
-    desc = {"i": i, "seed": seed, "pipeline": [s[0] for s in steps], "sem": sem, "fold": fold, "opt": opt, **g.desc}
+    staged = rng.random() < 0.4
+    desc = {"i": i, "seed": seed, "pipeline": [s[0] for s in steps], "sem": sem, "fold": fold, "opt": opt, "staged_two_contexts": staged, **g.desc}
+    rep.count(f"two-contexts:{int(staged)}")
     rep.count(f"depth:{len(steps)}")
     for s in steps:
         rep.count("op:" + s[0])
@@ -116,6 +118,18 @@ def one_case(rep, cs, seed, i):
     history = []
     try:
         ctx = evalc.make_ctx(sem, fold, opt)
+        if staged:
+            # the operands are compiled first; then ANOTHER context compiles the same symbolic circuits (and moves its own
+            # tensors); only then are the derived circuits compiled in the first context: they must read the first context's tensors
+            for c in ops_all:
+                if c.operation is None:
+                    ctx.compile(c)
+            ctxB = evalc.make_ctx(sem, *rng.choice(evalc.FLAGS))
+            ccB = ctxB.compile(root if rng.random() < 0.5 else base)
+            with torch.no_grad():
+                for p in ccB.parameters():
+                    if p.requires_grad:
+                        p.add_(torch.tensor(gen.dy(rng, 4, 12, 16), dtype=p.dtype))
         croot = ctx.compile(root)
         state = ctx._compiler.state
         base_ccs = [ctx.get_compiled_circuit(c) for c in ops_all if c.operation is None]
